@@ -15,12 +15,14 @@ M = [
  ("c01-cl-plus-one", "C01", "break", "message.go", 'k, _ = fmt.Fprintf(writer, "Content-Length: %d\\r\\n\\r\\n", len(m.body))', 'k, _ = fmt.Fprintf(writer, "Content-Length: %d\\r\\n\\r\\n", len(m.body)+1)', "emit len(body)+1"),
  ("c01-drop-empty-value", "C01", "break", "message.go", "\t\tif m.isSameHeader(header.name, \"Content-Length\") {\n\t\t\tcontinue\n\t\t}", "\t\tif m.isSameHeader(header.name, \"Content-Length\") || header.value == \"\" {\n\t\t\tcontinue\n\t\t}", "drop header fields with an empty value"),
  ("c01-first-bracket", "C01", "break", "name_addr.go", "\tpos1 := indexOfLAQuot(nameAddr)", "\tpos1 := strings.IndexByte(nameAddr, '<')", "addr-spec starts at the first '<' even inside the quoted display name (repair 1a14a96 partly undone)"),
+ ("c01-addrspec-semicolon", "C01", "break", "to.go", "r.addrSpec, err = ParseAddrSpec(s[0:pos])", "r.addrSpec, err = ParseAddrSpec(s[0 : pos+1])", "the ';' behind a bracket-less To address goes to the URI parser (repair f4c299d undone for To)"),
  ("c01-preserve-builder", "C01", "preserve", "message.go", "\tbuf := bytes.NewBuffer(make([]byte, 0))\n\t_, err := m.Write(buf)\n\tif err != nil {\n\t\treturn nil, err\n\t}\n\n\treturn buf.Bytes(), nil", "\tvar buf bytes.Buffer\n\tbuf.Grow(512)\n\tif _, err := m.Write(&buf); err != nil {\n\t\treturn nil, err\n\t}\n\treturn buf.Bytes(), nil", "Bytes() through a pre-grown buffer"),
  # ---- C02
  ("c02-sentby-over-received", "C02", "break", "proxy.go", "\thost, err = viaParam.GetReceived()\n\tif err == nil {", "\thost, err = viaParam.GetReceived()\n\tif err == nil && false {", "prefer sent-by over received"),
  ("c02-ignore-rport", "C02", "break", "proxy.go", "\t\tport, err = viaParam.GetRPort()\n\t\tif err != nil {\n\t\t\tport = viaParam.GetPort()\n\t\t}", "\t\tport = viaParam.GetPort()", "ignore rport"),
  ("c02-pop-whole-line", "C02", "break", "message.go", "\tif via.Size() > 1 {\n\t\t_, err := via.PopViaParam()\n\t\treturn err\n\t} else {", "\tif via.Size() > 1 && false {\n\t\t_, err := via.PopViaParam()\n\t\treturn err\n\t} else {", "pop the whole header line when it held several entries"),
  ("c02-default-5061", "C02", "break", "via.go", "\tif vp.Transport == \"TLS\" {\n\t\treturn 5061\n\t}\n\treturn 5060", "\tif vp.Transport == \"TLS\" || vp.Transport == \"TCP\" {\n\t\treturn 5061\n\t}\n\treturn 5060", "default port 5061 for TCP Vias"),
+ ("c02-untrimmed-via-param", "C02", "break", "via.go", "\t\t\t// blanks may surround the ';' and the ',' that delimit a parameter\n\t\t\tparam = strings.TrimSpace(param)\n", "", "Via parameters keep the blanks around ';' and ',' (repair 80e9a8d undone)"),
  # ---- C03
  ("c03-static-before-route", "C03", "break", "proxy.go", "\thost, port, transport, err = p.getNextRequestHopByRoute(msg)\n\tif err == nil {\n\t\treturn host, port, transport, err\n\t}\n\treturn p.getNextRequestHopByConfig(msg)", "\thost, port, transport, err = p.getNextRequestHopByConfig(msg)\n\tif err == nil {\n\t\treturn host, port, transport, err\n\t}\n\treturn p.getNextRequestHopByRoute(msg)", "static routes consulted before Route"),
  ("c03-any-port-is-mine", "C03", "break", "proxy.go", "sipUri.Host == msg.ReceivedFrom.GetAddress() && sipUri.GetPort() == msg.ReceivedFrom.GetPort()", "sipUri.Host == msg.ReceivedFrom.GetAddress()", "any port of the listener address designates the listener"),
